@@ -2,6 +2,7 @@
 import json, os, sys, time, hashlib
 
 VERIF = os.path.dirname(os.path.dirname(os.path.abspath(__file__)))
+REPO_ROOT = None
 
 
 class Finding:
@@ -9,7 +10,10 @@ class Finding:
 
     def __init__(self, rule, file, func, construct, detail, line=None, cell=None):
         self.rule = rule
-        self.file = (file or '?').replace('/repo/', '')
+        self.file = (file or '?')
+        if REPO_ROOT and self.file.startswith(REPO_ROOT + '/'):
+            self.file = self.file[len(REPO_ROOT) + 1:]
+        self.file = self.file.replace('/repo/', '')
         self.func = func
         self.construct = construct
         self.detail = detail
@@ -56,6 +60,8 @@ def load_known():
 
 class Check:
     def __init__(self, pid, tier, level, repo):
+        global REPO_ROOT
+        REPO_ROOT = repo
         self.pid = pid
         self.tier = tier
         self.level = level
